@@ -8,6 +8,12 @@ import NflowsModel.Lemmas.StructureExec
 
 Generic in the element type `α` (so "unchanged" is an equality in `α`: bit-for-bit for floats), in the
 element-wise family `f` and in the conditioner `cond` (an arbitrary function).
+
+**Limits** (external audit): in the abstract theorems "the conditioner sees only the identity split" holds by construction of the
+model (`condIn` is the recorded field) — what can falsify it is the correspondence, which compares the recorded conditioner input
+of the real layer bit for bit; the executed statement is `exec_conditioner_input`.  "Bit-for-bit at `Float`" of the executed
+pass-through needs `MaskDisjoint`, proved at the real instance.  The consequences named in the property text (monotone in each
+transformed feature, triangular Jacobian) are in C09 / C01, not here.
 -/
 open NF
 
